@@ -11,3 +11,7 @@ import WebrtcVerif.Props.C40
 import WebrtcVerif.Drv.C40
 import WebrtcVerif.Props.C19
 import WebrtcVerif.Drv.C19
+import WebrtcVerif.Props.C13
+import WebrtcVerif.Drv.C13
+import WebrtcVerif.Props.C14
+import WebrtcVerif.Drv.C14
